@@ -116,6 +116,7 @@ Definition frame_seqs (fr : frame) : list Z :=
   | Data seq _ _ => [seq]
   | MetaDesc _ _ seq _ _ _ _ => [seq]
   | Info _ _ seq => [seq]
+  | Push seq _ _ => [seq]
   | _ => []
   end.
 Definition out_seqs (o : out) : list Z := flat_map (fun e => frame_seqs (snd e)) o.
